@@ -479,6 +479,8 @@ class StmtMixin:
             raise Unsupported(f"loop at line {s.lineno} has no invariant")
         ln, at = self.iter_model(it)
         lnt = ctx.term(ln, INT)
+        ctx.ghost[f"_iter{ordinal}"] = it if not isinstance(it, (RangeV, EnumV, ZipV)) else None
+        ctx.ghost["_len"] = ln
         self.cut_loop(s, spec, ordinal, guard=lambda n: n < lnt, bound=lnt,
                       bind=lambda n: self.bind(s.target, at(n)))
 
